@@ -52,6 +52,8 @@ type Op struct {
 	Decide string `json:"decide,omitempty"`  // approve | deny | expire | cancel: what happens to the code while the helper polls
 	After  int    `json:"after,omitempty"`   // number of polls that are answered before the decision is applied
 	PollUs int    `json:"poll_us,omitempty"` // interval handed to the polling helper, microseconds
+	// par: 2-3 overlapping polls on one device code under a harness-owned interleaving (see interleave_test.go)
+	Par *Par `json:"par,omitempty"`
 }
 
 // RTSub is one provider of a real-time case (TestExpiry): all providers of a case share one wait.
@@ -160,7 +162,8 @@ func genCase(t *rapid.T) Case {
 	return c
 }
 
-func genCase0(t *rapid.T) Case {
+// genConfig: router, issuer strategy, device configuration and the three clients of a history case.
+func genConfig(t *rapid.T) Case {
 	c := Case{Kind: "history"}
 	c.Router = rapid.SampledFrom([]string{"provider", "legacy"}).Draw(t, "router")
 	genIssuer(t, &c)
@@ -191,6 +194,11 @@ func genCase0(t *rapid.T) Case {
 		cc.PlainSecret = rapid.IntRange(0, 3).Draw(t, fmt.Sprintf("plainsecret%d", i)) > 0
 		c.Clients = append(c.Clients, cc)
 	}
+	return c
+}
+
+func genCase0(t *rapid.T) Case {
+	c := genConfig(t)
 
 	n := rapid.IntRange(2, vkit.Scale(14, 24)).Draw(t, "nops")
 	for i := 0; i < n; i++ {
@@ -217,24 +225,28 @@ func genCase0(t *rapid.T) Case {
 		case "deny", "expire":
 			o.Code = rapid.SampledFrom(codeIdx).Draw(t, "code")
 		case "poll":
-			o.Code = rapid.SampledFrom(codeIdx).Draw(t, "code")
-			o.Pres = rapid.SampledFrom([]string{"right", "right", "right", "right", "right", "right", "right", "id_only", "wrong_secret", "cross", "cross", "none"}).Draw(t, "pres")
-			// Client < 0 means "the owner of the code" (resolved in run), so that owner polls are frequent
-			if o.Pres == "cross" {
-				// authenticated as an explicit client, the body names the owner of the code (Other < 0) or a third client
-				o.Client = rapid.IntRange(0, 2).Draw(t, "client")
-				o.Other = rapid.SampledFrom([]int{-1, -1, -1, 0, 1, 2}).Draw(t, "other")
-			} else {
-				o.Client = rapid.SampledFrom([]int{-1, -1, -1, -1, -1, -1, 0, 1, 2}).Draw(t, "client")
-			}
-			o.Timeout = rapid.IntRange(0, 7).Draw(t, "timeout") == 0
-			if rapid.IntRange(0, 9).Draw(t, "unknown") == 0 {
-				o.Unknown = rapid.SampledFrom([]string{"random", "truncated", "extended", "empty", "usercode"}).Draw(t, "unknownkind")
-			}
+			genPoll(t, &o)
 		}
 		c.Ops = append(c.Ops, o)
 	}
 	return c
+}
+
+func genPoll(t *rapid.T, o *Op) {
+	o.Code = rapid.SampledFrom(codeIdx).Draw(t, "code")
+	o.Pres = rapid.SampledFrom([]string{"right", "right", "right", "right", "right", "right", "right", "id_only", "wrong_secret", "cross", "cross", "none"}).Draw(t, "pres")
+	// Client < 0 means "the owner of the code" (resolved in run), so that owner polls are frequent
+	if o.Pres == "cross" {
+		// authenticated as an explicit client, the body names the owner of the code (Other < 0) or a third client
+		o.Client = rapid.IntRange(0, 2).Draw(t, "client")
+		o.Other = rapid.SampledFrom([]int{-1, -1, -1, 0, 1, 2}).Draw(t, "other")
+	} else {
+		o.Client = rapid.SampledFrom([]int{-1, -1, -1, -1, -1, -1, 0, 1, 2}).Draw(t, "client")
+	}
+	o.Timeout = rapid.IntRange(0, 7).Draw(t, "timeout") == 0
+	if rapid.IntRange(0, 9).Draw(t, "unknown") == 0 {
+		o.Unknown = rapid.SampledFrom([]string{"random", "truncated", "extended", "empty", "usercode"}).Draw(t, "unknownkind")
+	}
 }
 
 // genRPFlow: one device flow driven end to end through the library's client helpers.
@@ -330,11 +342,18 @@ type codeM struct {
 	issuedAfter    time.Time
 	approved       bool
 	approver       string
+	alt            []string // concurrent step: further users whose approval was in force while the polls of the step were in flight
 	denied         bool
 	expired        bool
 	redeemed       bool
 	withoutGrant   bool
 	ownerSoundOnly bool
+}
+
+// approvedBy: sub is the user whose approval is (sequential history) or may have been (concurrent step) in force.
+func (m *codeM) approvedBy(sub any) bool {
+	s, ok := sub.(string)
+	return ok && (s == m.approver || contains(m.alt, s))
 }
 
 // sameSet compares scope lists as sets; the empty string is not a scope (an empty scope parameter, which the library's
@@ -414,6 +433,11 @@ type world struct {
 	asserted    int
 	interesting int
 	greyPolls   int
+	// concurrent steps (interleave_test.go)
+	parSteps   int
+	parOverlap bool
+	parSig     []string
+	gateJ0     int // journal length when the first gate was registered (the store counts gated calls from then on); -1: none yet
 }
 
 func (w *world) issuerFor(o Op) string {
@@ -520,7 +544,7 @@ func newWorld(c Case, res *vkit.Result) *world {
 		res.Label("malformed-case")
 		return nil
 	}
-	w := &world{c: c, res: res, seenDev: map[string]bool{}, classes: map[string]bool{}}
+	w := &world{c: c, res: res, seenDev: map[string]bool{}, classes: map[string]bool{}, gateJ0: -1}
 	for i, cc := range c.Clients {
 		w.specs = append(w.specs, clientSpec(i, cc))
 	}
@@ -553,11 +577,17 @@ func runHistory(c Case, res *vkit.Result) {
 			w.poll(i, o)
 		case "rpflow":
 			w.rpFlow(i, o)
+		case "par":
+			w.par(i, o)
 		}
 	}
 
 	res.Label("router:"+c.Router, "issuer:"+c.IssuerMode, "uc:"+c.UCClass, "dash:"+dashClass(c.Device))
 	res.NonTrivial = len(w.codes) > 0 && w.interesting > 0
+	if w.parSteps > 0 {
+		// concurrent histories: a poll was started while another poll on the same issued code was held inside the library
+		res.NonTrivial = len(w.codes) > 0 && w.parOverlap
+	}
 	if w.asserted == 0 {
 		res.Grey = true
 	}
@@ -568,6 +598,9 @@ func runHistory(c Case, res *vkit.Result) {
 	sort.Strings(keys)
 	res.Key = fmt.Sprintf("%s|%s|%s|%s|%s", c.Router, c.IssuerMode, c.UCClass, dashClass(c.Device), strings.Join(keys, ","))
 	res.Info = map[string]any{"codes": len(w.codes), "asserted_polls": w.asserted, "grey_polls": w.greyPolls, "classes": keys}
+	if w.parSteps > 0 {
+		res.Info = map[string]any{"codes": len(w.codes), "asserted_polls": w.asserted, "grey_polls": w.greyPolls, "classes": keys, "concurrent_steps": w.parSteps, "schedules": w.parSig}
+	}
 }
 
 func dashClass(d vkit.DeviceCfg) string {
@@ -896,38 +929,11 @@ func (w *world) judgePoll(p pollObs) {
 
 	// --- state of the code, with the clock guard for its natural lifetime
 	state, rel := "unknown", "nobody"
-	life := time.Duration(c.Device.LifetimeS) * time.Second
-	clock := "live" // live | expired | window
+	var cs codeState
 	if m != nil {
-		switch {
-		case m.expired || t0.Sub(m.issuedAfter) > life+2*time.Second:
-			clock = "expired"
-		case t1.Sub(m.issuedBefore)+2*time.Second < life:
-			clock = "live"
-		default:
-			clock = "window"
-		}
-		switch {
-		case m.denied && m.approved:
-			state = "denied+approved"
-		case m.denied:
-			state = "denied"
-		case m.approved:
-			state = "approved"
-		default:
-			state = "pending"
-		}
-		if clock != "live" {
-			state += "+" + clock
-		}
-		switch {
-		case ident < 0:
-			rel = "nobody"
-		case ident == m.owner:
-			rel = "owner"
-		default:
-			rel = "foreign"
-		}
+		cs = codeState{approved: m.approved, denied: m.denied, redeemed: wasRedeemed, clock: w.clockOf(m, m.expired, t0, t1)}
+		state = cs.name()
+		rel = relOf(m, ident)
 	}
 
 	// --- soundness: whenever tokens come out, every premise of the statement must hold
@@ -955,54 +961,8 @@ func (w *world) judgePoll(p pollObs) {
 	}
 
 	// --- expectation per model
-	expect := ""       // class name
-	var named []string // acceptable OAuth error codes when the statement names them
-	mustTokens := false
-	grey := false
-	switch {
-	case m == nil:
-		expect = "refuse:unknown-code:" + unknown
-	case ident < 0:
-		expect = "refuse:no-valid-identity:" + pres
-	case ident != m.owner:
-		expect = "refuse:foreign-client:" + pres
-	case m.ownerSoundOnly || odd(cfg.Kind) || !cfg.Device:
-		expect, grey = "grey:owner-outside-domain", true
-	case pres == "rp+secret" || pres == "rp-rawsecret":
-		// a relying party that sends two authentication methods at once, or a secret with reserved characters unencoded
-		// in the Basic header: the statement does not say what the provider makes of those; soundness only
-		expect, grey = "grey:rp-presentation-outside-domain", true
-	case !proven:
-		expect = "refuse:unauthenticated-confidential"
-	case pres == "cross":
-		expect, grey = "grey:own-code-with-foreign-body-id", true
-	case o.Timeout:
-		expect, named = "slow_down", []string{"slow_down"}
-	case wasRedeemed && !m.denied:
-		expect, grey = "grey:already-redeemed", true
-	case m.denied:
-		expect, named = "access_denied", []string{"access_denied"}
-		if clock != "live" {
-			expect, named = "access_denied|expired_token", []string{"access_denied", "expired_token"}
-		}
-	case m.approved:
-		switch {
-		case clock != "live":
-			expect, grey = "grey:approved+expired", true
-		case c.Router == "provider" && cfg.Kind == "conf_post":
-			// the Provider router authenticates device polls by Basic or assertion only; the statement does not
-			// promise which presentations are supported, so completeness is not asserted here
-			expect, grey = "grey:approved:post-auth-on-provider", true
-		default:
-			expect, mustTokens = "tokens", true
-		}
-	case clock == "expired":
-		expect, named = "expired_token", []string{"expired_token"}
-	case clock == "window":
-		expect, named = "authorization_pending|expired_token", []string{"authorization_pending", "expired_token"}
-	default:
-		expect, named = "authorization_pending", []string{"authorization_pending"}
-	}
+	e := w.expectOf(&p, cs)
+	expect, named, mustTokens, grey := e.name, e.named, e.mustTokens, e.grey
 	if !grey && t1.Sub(t0) > time.Second {
 		// the library bounds the storage call of a poll with its own 4 s deadline (then slow_down): a request that
 		// was stalled this long (machine load) proves nothing about named errors or completeness
@@ -1050,6 +1010,108 @@ func (w *world) judgePoll(p pollObs) {
 	}
 }
 
+// codeState is what the model knows about a device code at one moment.
+type codeState struct {
+	approved, denied, redeemed bool
+	clock                      string // live | expired | window (natural lifetime within the 2 s guard)
+}
+
+func (s codeState) name() string {
+	state := "pending"
+	switch {
+	case s.denied && s.approved:
+		state = "denied+approved"
+	case s.denied:
+		state = "denied"
+	case s.approved:
+		state = "approved"
+	}
+	if s.clock != "live" {
+		state += "+" + s.clock
+	}
+	return state
+}
+
+// clockOf: position of a request [t0,t1] relative to the lifetime of the code (forced: the test side expired the code).
+func (w *world) clockOf(m *codeM, forced bool, t0, t1 time.Time) string {
+	life := time.Duration(w.c.Device.LifetimeS) * time.Second
+	switch {
+	case forced || t0.Sub(m.issuedAfter) > life+2*time.Second:
+		return "expired"
+	case t1.Sub(m.issuedBefore)+2*time.Second < life:
+		return "live"
+	}
+	return "window"
+}
+
+func relOf(m *codeM, ident int) string {
+	switch {
+	case ident < 0:
+		return "nobody"
+	case ident == m.owner:
+		return "owner"
+	}
+	return "foreign"
+}
+
+// expectation: what the statement says about one poll of a code in one state.
+type expectation struct {
+	name       string   // class name
+	named      []string // acceptable OAuth error codes when the statement names them
+	mustTokens bool
+	grey       bool
+}
+
+// expectOf is the model: the expected answer to poll p when the code is in state s.
+func (w *world) expectOf(p *pollObs, s codeState) expectation {
+	c := w.c
+	m, ident, pres, proven, unknown := p.m, p.ident, p.pres, p.proven, p.unknown
+	cfg := c.Clients[p.j]
+	clock := s.clock
+	switch {
+	case m == nil:
+		return expectation{name: "refuse:unknown-code:" + unknown}
+	case ident < 0:
+		return expectation{name: "refuse:no-valid-identity:" + pres}
+	case ident != m.owner:
+		return expectation{name: "refuse:foreign-client:" + pres}
+	case m.ownerSoundOnly || odd(cfg.Kind) || !cfg.Device:
+		return expectation{name: "grey:owner-outside-domain", grey: true}
+	case pres == "rp+secret" || pres == "rp-rawsecret":
+		// a relying party that sends two authentication methods at once, or a secret with reserved characters unencoded
+		// in the Basic header: the statement does not say what the provider makes of those; soundness only
+		return expectation{name: "grey:rp-presentation-outside-domain", grey: true}
+	case !proven:
+		return expectation{name: "refuse:unauthenticated-confidential"}
+	case pres == "cross":
+		return expectation{name: "grey:own-code-with-foreign-body-id", grey: true}
+	case p.timeout:
+		return expectation{name: "slow_down", named: []string{"slow_down"}}
+	case s.redeemed && !s.denied:
+		return expectation{name: "grey:already-redeemed", grey: true}
+	case s.denied:
+		if clock != "live" {
+			return expectation{name: "access_denied|expired_token", named: []string{"access_denied", "expired_token"}}
+		}
+		return expectation{name: "access_denied", named: []string{"access_denied"}}
+	case s.approved:
+		switch {
+		case clock != "live":
+			return expectation{name: "grey:approved+expired", grey: true}
+		case c.Router == "provider" && cfg.Kind == "conf_post":
+			// the Provider router authenticates device polls by Basic or assertion only; the statement does not
+			// promise which presentations are supported, so completeness is not asserted here
+			return expectation{name: "grey:approved:post-auth-on-provider", grey: true}
+		}
+		return expectation{name: "tokens", mustTokens: true}
+	case clock == "expired":
+		return expectation{name: "expired_token", named: []string{"expired_token"}}
+	case clock == "window":
+		return expectation{name: "authorization_pending|expired_token", named: []string{"authorization_pending", "expired_token"}}
+	}
+	return expectation{name: "authorization_pending", named: []string{"authorization_pending"}}
+}
+
 func identName(w *world, ident int) string {
 	if ident < 0 {
 		return "nobody"
@@ -1080,7 +1142,7 @@ func (w *world) checkTokens(i int, r *vkit.Resp, m *codeM, before map[string]boo
 	for _, id := range ids {
 		t, _ := w.st.TokenSnapshot(id)
 		newToks++
-		if t.Subject != m.approver {
+		if !m.approvedBy(t.Subject) {
 			res.Fail("C16:token:subject", "op %d: access token %s issued for subject %q, the approving user is %q", i, id, t.Subject, m.approver)
 		}
 		if !sameSet(t.Scopes, want) {
@@ -1098,7 +1160,7 @@ func (w *world) checkTokens(i int, r *vkit.Resp, m *codeM, before map[string]boo
 	if parts := strings.Split(at, "."); len(parts) == 3 {
 		if p := jwtPayload(at); p != nil {
 			res.Label("token:jwt-at")
-			if p["sub"] != m.approver {
+			if !m.approvedBy(p["sub"]) {
 				res.Fail("C16:token:subject", "op %d: JWT access token sub=%v, the approving user is %q", i, p["sub"], m.approver)
 			}
 			// the library's JWT access tokens carry no scope claim (scopes live in the storage record and the
@@ -1115,7 +1177,7 @@ func (w *world) checkTokens(i int, r *vkit.Resp, m *codeM, before map[string]boo
 		if p := jwtPayload(idt); p == nil {
 			res.Fail("C16:token:id-token-garbled", "op %d: id_token is not a JWT: %q", i, idt)
 		} else {
-			if p["sub"] != m.approver {
+			if !m.approvedBy(p["sub"]) {
 				res.Fail("C16:token:subject", "op %d: id_token sub=%v, the approving user is %q", i, p["sub"], m.approver)
 			}
 			if !contains(scopeClaim(p["aud"]), owner.ID) {
@@ -1126,7 +1188,7 @@ func (w *world) checkTokens(i int, r *vkit.Resp, m *codeM, before map[string]boo
 	if rt := r.Str("refresh_token"); rt != "" {
 		res.Label("token:refresh")
 		if s, ok := w.st.RefreshSnapshot(rt); ok {
-			if s.Subject != m.approver || s.ClientID != owner.ID || !sameSet(s.Scopes, want) {
+			if !m.approvedBy(s.Subject) || s.ClientID != owner.ID || !sameSet(s.Scopes, want) {
 				res.Fail("C16:token:refresh-binding", "op %d: refresh token bound to (%q,%q,%v), want (%q,%q,%v)", i, s.Subject, s.ClientID, s.Scopes, m.approver, owner.ID, want)
 			}
 		}
@@ -1139,7 +1201,7 @@ func (w *world) checkTokens(i int, r *vkit.Resp, m *codeM, before map[string]boo
 			res.Fail("C16:panic@"+ui.PanicFrame(), "op %d userinfo with the device access token: %s", i, ui.Describe())
 		case ui.Success():
 			res.Label("token:userinfo-checked")
-			if ui.Str("sub") != m.approver {
+			if !m.approvedBy(ui.Str("sub")) {
 				res.Fail("C16:token:subject", "op %d: userinfo for the device access token says sub=%q, the approving user is %q", i, ui.Str("sub"), m.approver)
 			}
 		default:
@@ -1201,9 +1263,11 @@ const ruleUC = "user-code cases (TestUserCode) = same alphabet classes x length 
 	"layout per config, codes not constant (>= 2 symbols) and pairwise distinct when the code space has >= 48 bit; op.NewDeviceCode(n in 16..64) decodes to n bytes and never repeats; " +
 	"non-trivial = dash interval inside the code or non-ASCII alphabet; distinct = (alphabet, length, dash interval)"
 
-var prop = vkit.Prop[Case]{ID: "C16", Rule: ruleHistory + " || " + ruleUC + " || " + ruleRT, Gen: genCase, Run: run}
+const ruleAll = ruleHistory + " || " + ruleUC + " || " + ruleRT + " || " + ruleIL
 
-var propUC = vkit.Prop[Case]{ID: "C16", Rule: ruleHistory + " || " + ruleUC + " || " + ruleRT, Gen: genUCCase, Run: run}
+var prop = vkit.Prop[Case]{ID: "C16", Rule: ruleAll, Gen: genCase, Run: run}
+
+var propUC = vkit.Prop[Case]{ID: "C16", Rule: ruleAll, Gen: genUCCase, Run: run}
 
 func TestRapid(t *testing.T)    { prop.Check(t) }
 func TestUserCode(t *testing.T) { propUC.Check(t) }
